@@ -21,6 +21,9 @@ MCClosers == ${Closers}
 LatticeOK == /\ (Len(sent) >= 2 => sent[2] = "q1")
              /\ (Len(osent) >= 2 => osent[2].id = "s1")
 
+\* long runs of refused requests: at most one more message after the accepted one
+AuthDeepOK == first = 0 \/ Len(sent) <= first + 1
+
 \* the filter on the whole message lattice: nothing that must not travel survives, everything else does
 ReqLattice == [m : {"GET", "HEAD", "POST"}, h : {"a"}, cl : BOOLEAN, au : {"none", "bad", "good"},
                hs : SUBSET ReqClasses, bd : ReqBodies]
